@@ -441,12 +441,20 @@ def run(ctx):
 
     # ---- 1. corpus, boundary tables, random in-domain cases: (ty, abstract val, tail)
     cases = []
+    expect_lines, expect_vals = [], []
     cdir = os.path.join(VERIF, 'corpus', 'C01')
     if os.path.isdir(cdir):
         for f in sorted(os.listdir(cdir)):
             c = json.load(open(os.path.join(cdir, f)))
-            if c.get('kind') in ('roundtrip', 'offdomain', 'malformed', 'fixed-overlong', 'char-empty', 'fixed-strip', 'record-empty'):
+            if 'ty' in c and 'val' in c:
                 cases.append(('corpus', bc.parse_ty(c['ty']), bc.parse_val(c['val']), bytes.fromhex(c.get('tail', ''))))
+                if 'expect_model_enc' in c:      # the corpus entry is the term a Witness / example theorem is about
+                    expect_lines.append(f"bin.enc {c['ty']} {c['val']}")
+                    expect_vals.append((f, c['expect_model_enc']))
+    if ctx.driver.available and expect_lines:
+        for a, (f, want) in zip(ctx.driver.ask(expect_lines), expect_vals):
+            if a != want:
+                ctx.disagree(f'corpus/{f}: the model answers `{a}`, the witness theorem states `{want}`', {'kind': 'corpus', 'file': f})
     for ty, v in int_boundary_cases(ctx.tier):
         cases.append(('boundary', ty, v, b'\xff' if v[1] % 2 else b''))
     for ty, v in text_boundary_cases(ctx.tier):
@@ -476,7 +484,7 @@ def run(ctx):
             ctx.notes.append('stopped early: 20 failing inputs recorded')
             break
         dom = bc.in_domain(ty, bc.complete(ty, v)) and bc.constructible(ty)
-        typed = src != 'malformed' and (dom or src == 'offdomain')
+        typed = src != 'malformed' and (dom or src in ('offdomain', 'corpus'))
         ctx.count(f'{src}:{"in-domain" if dom else "off-domain"}')
         ctx.count('top:' + kind(ty))
         try:
@@ -556,6 +564,10 @@ def off_domain_oracle(ctx, B, ty, v, pobj, tail):
     Only values that went through the typed attributes count (malformed ones are compared with the model only)."""
     T = B.build(ty)
     r = bc.impl_encode(T, pobj)
+    if ty == ['record'] and v == ['r']:
+        if r[0] != 'ok':
+            report(ctx, f'a record without fields cannot be encoded: {r[1]}', {'kind': 'record-empty', 'ty': sx(ty), 'val': sx(v), 'tail': tail.hex()})
+        return
     if kind(ty) == 'record' and len(ty) == 3 and kind(ty[2][1]) == 'int':
         leaf_ty, leaf_v = ty[1][1], v[1][1]
     else:
